@@ -8,6 +8,7 @@ import (
 	"fmt"
 	"net/http"
 	"net/http/httptest"
+	"net/url"
 	"os"
 	"runtime"
 	"sort"
@@ -550,7 +551,11 @@ func (r *runner) execOp(t *rt.Task, op *Op) *OpResult {
 	t.Log(fmt.Sprintf("start op%d %s", op.ID, op.Kind))
 
 	rec := httptest.NewRecorder()
-	req := httptest.NewRequest(method, "http://127.0.0.113:8000"+path, bytes.NewReader(body))
+	// the reference may contain anything (it is derived from request members): put the path
+	// into the URL structure, as a client that escapes it properly would
+	req := httptest.NewRequest(method, "http://127.0.0.113:8000/", bytes.NewReader(body))
+	req.URL = &url.URL{Scheme: "http", Host: "127.0.0.113:8000", Path: path}
+	req.RequestURI = req.URL.RequestURI()
 	if body != nil {
 		req.Header.Set("Content-Type", "application/json")
 	}
